@@ -1,3 +1,237 @@
-import MjProof.Model.Broadphase
+import MjProof.Lemmas.Broadphase
+import MjProof.Lemmas.RealNum
+/-
+C14  Collision pair selection is complete and respects the filters.
+
+Property theorems only.  Models: `MjProof/Model/Broadphase.lean` (hand model of `mj_SAP`, `mj_broadphase`, the
+pair loop of `mj_collision`, `contactcompare`; tied to engine_collision_driver.c by the differential and
+scene-replay runs of `checks/c14.py`) and the generated kernels `MjProof.Gen.filterBitmask`,
+`filterBodyPair`, `filterBox`, `filterSphereBox`, `filterSphere` (regenerated from the C source on every run).
+-/
 namespace MjProof.C14
+open List MjProof.Sort MjProof.Broadphase
+
+/-! ## Sweep and prune -/
+
+section sap
+variable {ι K β : Type} [DecidableEq ι]
+
+/-- **`mj_SAP` is complete and exact** (any number of boxes).  For a box set with distinct ids, a comparator
+    that is a total preorder (`SAPcmp` on non-NaN floats) and `xlo ≤ xhi` for every box:
+
+    * every output pair consists of the ids of two different boxes;
+    * for a box `bi` that is earlier in the array than `bj`, the ordered pair `(bi.id, bj.id)` is output iff
+      the y/z tests pass and `xlo_i ≤ xlo_j < xhi_i`, and `(bj.id, bi.id)` is output iff the y/z tests pass and
+      `xlo_j < xlo_i ≤ xhi_j` — the comparisons are those of the code, on the `(float)`-cast values;
+    * no ordered pair is output twice and no pair is output in both orientations (exactly once).
+
+    The proof uses the stability and sortedness of `mjSORT` (C22): ties between endpoints are resolved by the
+    buffer order `[min0, max0, min1, max1, …]`. -/
+theorem sap_complete {cmp : K → K → Int} (hc : TotalPreorder cmp) (gt : β → β → Bool)
+    (boxes : List (Box ι K β)) (hid : (boxes.map (·.id)).Nodup) (hwf : ∀ b ∈ boxes, cmp b.xlo b.xhi ≤ 0) :
+    (∀ i j, (i, j) ∈ sapPairs cmp gt boxes → ∃ bi ∈ boxes, ∃ bj ∈ boxes, bi.id = i ∧ bj.id = j ∧ i ≠ j) ∧
+    (∀ P Q R bi bj, boxes = P ++ bi :: Q ++ bj :: R →
+      ((bi.id, bj.id) ∈ sapPairs cmp gt boxes ↔
+        yzPrune gt bi.yz bj.yz = false ∧ cmp bi.xlo bj.xlo ≤ 0 ∧ ¬ cmp bi.xhi bj.xlo ≤ 0) ∧
+      ((bj.id, bi.id) ∈ sapPairs cmp gt boxes ↔
+        yzPrune gt bj.yz bi.yz = false ∧ ¬ cmp bi.xlo bj.xlo ≤ 0 ∧ cmp bi.xlo bj.xhi ≤ 0)) ∧
+    (sapPairs cmp gt boxes).Nodup ∧
+    (∀ i j, (i, j) ∈ sapPairs cmp gt boxes → (j, i) ∉ sapPairs cmp gt boxes) := by
+  refine ⟨fun i j h => sapPairs_sound hc gt hid h, ?_, (sapPairs_once hc gt hid).1, (sapPairs_once hc gt hid).2⟩
+  intro P Q R bi bj hb
+  subst hb
+  exact sapPairs_mem hc gt hid hwf
+
+/-- the y/z test is symmetric in its two boxes -/
+theorem yzPrune_comm (gt : β → β → Bool) (a b : YZ β) : yzPrune gt a b = yzPrune gt b a := by
+  unfold yzPrune
+  cases gt a.ylo b.yhi <;> cases gt b.ylo a.yhi <;> cases gt a.zlo b.zhi <;> cases gt b.zlo a.zhi <;> rfl
+
+/-- **No overlapping pair is dropped**: two boxes whose x-intervals overlap *strictly* as the code compares
+    them (`xlo_j < xhi_i` and `xlo_i < xhi_j` on the cast values) and that pass the y/z tests are reported (in
+    one of the two orientations). -/
+theorem sap_no_drop {cmp : K → K → Int} (hc : TotalPreorder cmp) (gt : β → β → Bool)
+    (boxes : List (Box ι K β)) (hid : (boxes.map (·.id)).Nodup) (hwf : ∀ b ∈ boxes, cmp b.xlo b.xhi ≤ 0)
+    {P Q R : List (Box ι K β)} {bi bj : Box ι K β} (hb : boxes = P ++ bi :: Q ++ bj :: R)
+    (hyz : yzPrune gt bi.yz bj.yz = false)
+    (h1 : ¬ cmp bi.xhi bj.xlo ≤ 0) (h2 : ¬ cmp bj.xhi bi.xlo ≤ 0) :
+    (bi.id, bj.id) ∈ sapPairs cmp gt boxes ∨ (bj.id, bi.id) ∈ sapPairs cmp gt boxes := by
+  obtain ⟨ha, hb'⟩ := (sap_complete hc gt boxes hid hwf).2.1 P Q R bi bj hb
+  by_cases hle : cmp bi.xlo bj.xlo ≤ 0
+  · exact Or.inl (ha.mpr ⟨hyz, hle, h1⟩)
+  · refine Or.inr (hb'.mpr ⟨by rw [yzPrune_comm]; exact hyz, hle, ?_⟩)
+    rcases hc.total bi.xlo bj.xhi with h | h
+    · exact h
+    · exact absurd h h2
+
+/-- **Nothing else is output**: a reported pair overlaps on x as closed intervals (on the cast values) and
+    passes the y/z tests. -/
+theorem sap_sound {cmp : K → K → Int} (hc : TotalPreorder cmp) (gt : β → β → Bool)
+    (boxes : List (Box ι K β)) (hid : (boxes.map (·.id)).Nodup) (hwf : ∀ b ∈ boxes, cmp b.xlo b.xhi ≤ 0)
+    {P Q R : List (Box ι K β)} {bi bj : Box ι K β} (hb : boxes = P ++ bi :: Q ++ bj :: R)
+    (h : (bi.id, bj.id) ∈ sapPairs cmp gt boxes ∨ (bj.id, bi.id) ∈ sapPairs cmp gt boxes) :
+    yzPrune gt bi.yz bj.yz = false ∧ cmp bi.xlo bj.xhi ≤ 0 ∧ cmp bj.xlo bi.xhi ≤ 0 := by
+  obtain ⟨ha, hb'⟩ := (sap_complete hc gt boxes hid hwf).2.1 P Q R bi bj hb
+  have wfi : cmp bi.xlo bi.xhi ≤ 0 := hwf bi (by simp [hb])
+  have wfj : cmp bj.xlo bj.xhi ≤ 0 := hwf bj (by simp [hb])
+  rcases h with h | h
+  · obtain ⟨hyz, hle, hlt⟩ := ha.mp h
+    refine ⟨hyz, hc.trans _ _ _ hle wfj, ?_⟩
+    rcases hc.total bj.xlo bi.xhi with h' | h'
+    · exact h'
+    · exact absurd h' hlt
+  · obtain ⟨hyz, hlt, hle⟩ := hb'.mp h
+    refine ⟨by rw [yzPrune_comm]; exact hyz, hle, ?_⟩
+    have : cmp bj.xlo bi.xlo ≤ 0 := by
+      rcases hc.total bj.xlo bi.xlo with h' | h'
+      · exact h'
+      · exact absurd h' hlt
+    exact hc.trans _ _ _ this wfi
+
+/-- **Touching intervals are handled asymmetrically** (a consequence of `sap_complete`, recorded because it
+    decides what a `<` / `<=` rewrite changes): when the cast x-intervals only touch, the pair is reported iff the
+    box on the *left* is the one with the *higher* index. -/
+theorem sap_touching {cmp : K → K → Int} (hc : TotalPreorder cmp) (gt : β → β → Bool)
+    (boxes : List (Box ι K β)) (hid : (boxes.map (·.id)).Nodup) (hwf : ∀ b ∈ boxes, cmp b.xlo b.xhi ≤ 0)
+    {P Q R : List (Box ι K β)} {bi bj : Box ι K β} (hb : boxes = P ++ bi :: Q ++ bj :: R)
+    (hyz : yzPrune gt bi.yz bj.yz = false) :
+    -- lower-index box on the left, touching: dropped
+    ((cmp bi.xhi bj.xlo ≤ 0 ∧ cmp bi.xlo bj.xlo ≤ 0) →
+      (bi.id, bj.id) ∉ sapPairs cmp gt boxes ∧ (bj.id, bi.id) ∉ sapPairs cmp gt boxes) ∧
+    -- higher-index box on the left, touching: reported
+    ((cmp bi.xlo bj.xhi ≤ 0 ∧ ¬ cmp bi.xlo bj.xlo ≤ 0) → (bj.id, bi.id) ∈ sapPairs cmp gt boxes) := by
+  obtain ⟨ha, hb'⟩ := (sap_complete hc gt boxes hid hwf).2.1 P Q R bi bj hb
+  refine ⟨?_, ?_⟩
+  · rintro ⟨h1, h2⟩
+    exact ⟨fun h => (ha.mp h).2.2 h1, fun h => (hb'.mp h).2.1 h2⟩
+  · rintro ⟨h1, h2⟩
+    exact hb'.mpr ⟨by rw [yzPrune_comm]; exact hyz, h2, h1⟩
+
+/-- the return value and buffer of `mj_SAP`: all pairs when the buffer is large enough -/
+theorem mjSAP_all {cmp : K → K → Int} (gt : β → β → Bool) (boxes : List (Box ι K β)) (maxpair : Int)
+    (hn : boxes.length < 65536) (hm : 1 ≤ maxpair) (hfit : (sapPairs cmp gt boxes).length ≤ maxpair.toNat) :
+    (mjSAP cmp gt boxes maxpair).2 = sapPairs cmp gt boxes ∧
+    (mjSAP cmp gt boxes maxpair).1 = (sapPairs cmp gt boxes).length := by
+  unfold mjSAP
+  have h0 : ¬ (boxes.length ≥ 65536 ∨ maxpair < 1) := by omega
+  simp only [h0, ↓reduceIte]
+  by_cases hge : (sapPairs cmp gt boxes).length ≥ maxpair.toNat
+  · have heq : (sapPairs cmp gt boxes).length = maxpair.toNat := by omega
+    simp only [hge, ↓reduceIte]
+    refine ⟨by rw [← heq]; exact take_length, ?_⟩
+    rw [heq]; omega
+  · simp [hge]
+
+end sap
+
+/-! non-vacuity of the hypotheses of `sap_complete`: an order comparator on integers is a total preorder, and
+    a concrete three-box instance (touching boxes 0|1, overlapping 1&2) evaluates as the theorem says -/
+
+def cmpInt (a b : Int) : Int := if a < b then -1 else if a = b then 0 else 1
+
+theorem cmpInt_totalPreorder : TotalPreorder cmpInt := by
+  constructor
+  · intro a b; unfold cmpInt; split <;> split <;> (try split) <;> (try split) <;> omega
+  · intro a b c; unfold cmpInt; intro h1 h2
+    split at h1 <;> split at h2 <;> (try split at h1) <;> (try split at h2) <;> split <;> (try split) <;> omega
+
+/-- the hypotheses of `sap_complete` are satisfiable: three concrete boxes (0|1 touching, 1&2 overlapping); the
+    theorem then says that (1, 2) is reported and that the touching pair (0, 1) is not -/
+example :
+    let boxes : List (Box Nat Int Int) := [⟨0, 0, 1, ⟨0, 1, 0, 1⟩⟩, ⟨1, 1, 3, ⟨0, 1, 0, 1⟩⟩, ⟨2, 2, 4, ⟨0, 1, 0, 1⟩⟩]
+    (1, 2) ∈ sapPairs cmpInt (fun (a b : Int) => decide (a > b)) boxes ∧
+    (0, 1) ∉ sapPairs cmpInt (fun (a b : Int) => decide (a > b)) boxes := by
+  intro boxes
+  have hid : (boxes.map (·.id)).Nodup := by decide
+  have hwf : ∀ b ∈ boxes, cmpInt b.xlo b.xhi ≤ 0 := by decide
+  have h := (sap_complete cmpInt_totalPreorder (fun (a b : Int) => decide (a > b)) boxes hid hwf).2.1
+  constructor
+  · exact ((h [⟨0, 0, 1, ⟨0, 1, 0, 1⟩⟩] [] [] ⟨1, 1, 3, ⟨0, 1, 0, 1⟩⟩ ⟨2, 2, 4, ⟨0, 1, 0, 1⟩⟩ rfl).1).mpr (by decide)
+  · intro hc
+    have := ((h [] [] [⟨2, 2, 4, ⟨0, 1, 0, 1⟩⟩] ⟨0, 0, 1, ⟨0, 1, 0, 1⟩⟩ ⟨1, 1, 3, ⟨0, 1, 0, 1⟩⟩ rfl).1).mp hc
+    exact absurd this (by decide)
+
+/-! ## Filter kernels (generated from the C source) -/
+
+section filters
+
+/-- `filterBitmask` returns 0 (keep) iff the contype of one geom and the conaffinity of the other share a bit:
+    `(contype1 & conaffinity2) || (contype2 & conaffinity1)`, the rule of the documentation; otherwise 1. -/
+theorem filterBitmask_spec (ct1 ca1 ct2 ca2 : Int) :
+    (Gen.filterBitmask (α := Float) ct1 ca1 ct2 ca2 = 0 ↔ (intLand ct1 ca2 ≠ 0 ∨ intLand ct2 ca1 ≠ 0)) ∧
+    (Gen.filterBitmask (α := Float) ct1 ca1 ct2 ca2 = 0 ∨ Gen.filterBitmask (α := Float) ct1 ca1 ct2 ca2 = 1) := by
+  unfold Gen.filterBitmask
+  by_cases h1 : intLand ct1 ca2 = 0 <;> by_cases h2 : intLand ct2 ca1 = 0 <;> simp [h1, h2]
+
+/-- `filterBodyPair` discards (≠ 0) exactly in the documented cases: same weld group; both weld groups
+    without degrees of freedom; both asleep; one asleep and the other welded to the world; parent and child
+    weld groups, unless one of them is the world's or the parent filter is disabled. -/
+theorem filterBodyPair_spec (w1 pw1 as1 d1 w2 pw2 as2 d2 f : Int) :
+    Gen.filterBodyPair (α := Float) w1 pw1 as1 d1 w2 pw2 as2 d2 f ≠ 0 ↔
+      (w1 = w2 ∨ (d1 = 0 ∧ d2 = 0) ∨ (as1 ≠ 0 ∧ as2 ≠ 0) ∨ ((as1 ≠ 0 ∧ w2 = 0) ∨ (as2 ≠ 0 ∧ w1 = 0)) ∨
+       (f = 0 ∧ w1 ≠ 0 ∧ w2 ≠ 0 ∧ (w1 = pw2 ∨ w2 = pw1))) := by
+  unfold Gen.filterBodyPair
+  simp only [decide_eq_true_eq]
+  split_ifs <;> omega
+
+/-- `filterBodyPair` does not depend on the order of the two bodies. -/
+theorem filterBodyPair_symm (w1 pw1 as1 d1 w2 pw2 as2 d2 f : Int) :
+    (Gen.filterBodyPair (α := Float) w1 pw1 as1 d1 w2 pw2 as2 d2 f ≠ 0) ↔
+    (Gen.filterBodyPair (α := Float) w2 pw2 as2 d2 w1 pw1 as1 d1 f ≠ 0) := by
+  rw [filterBodyPair_spec, filterBodyPair_spec]
+  omega
+
+/-- `filterBox` over the reals: boxes `(center, half-size)` are discarded iff on some axis the gap between them
+    exceeds `margin`; so a pair whose margin-inflated boxes intersect is never pruned. -/
+theorem filterBox_spec (c1 c2 c3 h1 h2 h3 d1 d2 d3 k1 k2 k3 margin : ℝ) :
+    Gen.filterBox (α := ℝ) c1 c2 c3 h1 h2 h3 d1 d2 d3 k1 k2 k3 margin = 0 ↔
+      (|c1 - d1| ≤ h1 + k1 + margin ∧ |c2 - d2| ≤ h2 + k2 + margin ∧ |c3 - d3| ≤ h3 + k3 + margin) := by
+  unfold Gen.filterBox
+  simp only [decide_eq_true_eq, abs_le]
+  split_ifs <;> constructor <;> intro h <;>
+    first
+    | rfl
+    | (refine ⟨⟨?_, ?_⟩, ⟨?_, ?_⟩, ⟨?_, ?_⟩⟩ <;> linarith)
+    | (obtain ⟨⟨_, _⟩, ⟨_, _⟩, ⟨_, _⟩⟩ := h; exfalso; linarith)
+    | (exact absurd h (by norm_num))
+
+/-- `filterSphere` over the reals: discard (1) iff the squared centre distance exceeds `bound²`, else 0; for the
+    non-negative bound of a valid model (`filterSphere_keep_iff`) a pair is kept iff `dist ≤ bound`, i.e. iff the
+    bounding spheres inflated by the margin intersect. -/
+theorem filterSphere_spec (p1 p2 p3 q1 q2 q3 bound : ℝ) :
+    Gen.filterSphere (α := ℝ) p1 p2 p3 q1 q2 q3 bound =
+      if bound * bound < (p1 - q1) * (p1 - q1) + (p2 - q2) * (p2 - q2) + (p3 - q3) * (p3 - q3) then 1 else 0 := by
+  unfold Gen.filterSphere
+  simp only [decide_eq_true_eq]
+
+theorem filterSphere_keep_iff (p1 p2 p3 q1 q2 q3 bound : ℝ) (hb : 0 ≤ bound) :
+    Gen.filterSphere (α := ℝ) p1 p2 p3 q1 q2 q3 bound = 0 ↔
+      Real.sqrt ((p1 - q1) ^ 2 + (p2 - q2) ^ 2 + (p3 - q3) ^ 2) ≤ bound := by
+  rw [filterSphere_spec]
+  have e : (p1 - q1) * (p1 - q1) + (p2 - q2) * (p2 - q2) + (p3 - q3) * (p3 - q3) =
+      (p1 - q1) ^ 2 + (p2 - q2) ^ 2 + (p3 - q3) ^ 2 := by ring
+  rw [e, Real.sqrt_le_left hb]
+  split_ifs with h
+  · constructor
+    · intro h'; exact absurd h' (by norm_num)
+    · intro h'; nlinarith
+  · constructor
+    · intro _; nlinarith
+    · intro _; rfl
+
+/-- `filterSphereBox` over the reals: a sphere (treated as a box of half-size `bound`) against an AABB. -/
+theorem filterSphereBox_spec (s1 s2 s3 bound c1 c2 c3 h1 h2 h3 : ℝ) :
+    Gen.filterSphereBox (α := ℝ) s1 s2 s3 bound c1 c2 c3 h1 h2 h3 = 0 ↔
+      (|s1 - c1| ≤ bound + h1 ∧ |s2 - c2| ≤ bound + h2 ∧ |s3 - c3| ≤ bound + h3) := by
+  unfold Gen.filterSphereBox
+  simp only [decide_eq_true_eq, abs_le]
+  split_ifs <;> constructor <;> intro h <;>
+    first
+    | rfl
+    | (refine ⟨⟨?_, ?_⟩, ⟨?_, ?_⟩, ⟨?_, ?_⟩⟩ <;> linarith)
+    | (obtain ⟨⟨_, _⟩, ⟨_, _⟩, ⟨_, _⟩⟩ := h; exfalso; linarith)
+    | (exact absurd h (by norm_num))
+
+end filters
+
 end MjProof.C14
